@@ -1,0 +1,23 @@
+//go:build verif
+
+package fs
+
+import "sync/atomic"
+
+var verifYieldPtr atomic.Pointer[func(point string, name string)]
+
+// VerifSetYield installs (or, with nil, removes) a callback that is called between the system calls of
+// lock file acquisition and release.
+func VerifSetYield(f func(point string, name string)) {
+	if f == nil {
+		verifYieldPtr.Store(nil)
+		return
+	}
+	verifYieldPtr.Store(&f)
+}
+
+func verifYield(point string, name string) {
+	if f := verifYieldPtr.Load(); f != nil {
+		(*f)(point, name)
+	}
+}
